@@ -213,7 +213,7 @@ var initWhitelist = []string{
 	"mime", "mime/multipart", "net/textproto", "path", "path/filepath", "bufio", "slices", "maps", "cmp",
 	"internal/bytealg", "internal/itoa", "internal/stringslite", "encoding/hex", "encoding/base64", "errors_placeholder",
 	"github.com/mailru/easyjson", "github.com/mailru/easyjson/jlexer", "github.com/mailru/easyjson/jwriter", "github.com/mailru/easyjson/buffer",
-	"github.com/josharian/intern", "vendor/golang.org/x/net/http/httpguts", "regexp", "regexp/syntax", "math/rand", "io/ioutil", "html", "html/template_placeholder",
+	"github.com/josharian/intern", "io/fs", "internal/oserror", "vendor/golang.org/x/net/http/httpguts", "regexp", "regexp/syntax", "math/rand", "io/ioutil", "html", "html/template_placeholder",
 }
 
 var initPrefixes = []string{modRootPath}
